@@ -771,12 +771,13 @@ def main():
                     bump("tableau/unavailable")
             i += 1
     ans, tmissing = budget_model_queries(qs_, M, 600 if T else 100, per_chunk=(200 if T else 60))
-    if tmissing:
+    ck.cov["tableau_judgements_not_finished_within_budget"] = len(tmissing)
+    if tmissing and len(tmissing) * 100 > len(qs_):
         bump("tableau/unanswered-within-budget", len(tmissing))
         ck.violation("budget_%s.txt" % tmissing[0], scripts[want[tmissing[0]][0]], "%d of %d tableau judgements by the extracted checkers did not finish within the time budget: the rows returned could not be "
                      "multiplied back by check_binv_row / check_tableau_row" % (len(tmissing), len(qs_)), no_input=True, match=dict(kind="model-budget"))
-        for qid in tmissing:
-            want.pop(qid, None)
+    for qid in tmissing:
+        want.pop(qid, None)
     nrows_judged = 0
     for qid, (cid, bi, rows) in want.items():
         a = ans.get(qid)
@@ -826,7 +827,7 @@ def main():
     # B2: structured matrices
     nstruct = 600 if T else 140
     for k in range(nstruct):
-        n = rng.choice([2, 3, 4, 5, 6, 8, 10, 12, 16, 24, 30, 40] + ([60, 80] if T else []))
+        n = rng.choice([2, 3, 4, 5, 6, 8, 10, 12, 16, 24, 30, 40] + ([60] if T else []))
         kind, A = structured_matrix(rng, n)
         c = component_static("s%d" % k, rng, A, fparams(rng), 12 if n <= 16 else 8)
         c.kind = kind
@@ -942,7 +943,10 @@ def main():
     allq = qlist + updq + luq
     cans, missing = budget_model_queries(allq, M, BUDGET, per_chunk=(300 if T else 100))
     print("# component model %.1fs, %d queries, %d unanswered" % (time.time() - t1, len(allq), len(missing)), file=sys.stderr)
-    if missing:
+    ck.cov["judgements_not_finished_within_budget"] = len(missing)
+    # a handful of very costly exact judgements (dense matrices of dimension 60 and more) may not finish: they are counted as
+    # not judged in the evidence; only when more than 1 % stay unanswered (a judge that hangs or died) the tie counts as broken
+    if missing and len(missing) * 100 > len(allq):
         bump("model/unanswered-within-budget", len(missing))
         m0 = missing[0]
         c0 = (qmeta.get(m0) or updmeta.get(m0) or lumeta.get(m0)[1:])[0]
